@@ -1,6 +1,15 @@
 """Shared by C08 and C19: conversion of Gen_Mock behaviours to harness scripts, configuration texts for Mock.tla,
 and the seeded random scenario generator (unambiguous expectation sets by construction)."""
-from props.c09 import enc, enc_int, BITS, SIGNED
+from props.c09 import enc as enc_value, enc_int, BITS, SIGNED
+
+
+def enc(v):
+    """value record -> script encoding; an object of a user type carries its type name and its fields: O|<type name>|a,b"""
+    if v.get("t") == "obj":
+        c = v["c"]
+        return "O|%s|%s" % (v["tn"], ",".join(str(x) for x in (c if isinstance(c, (list, tuple)) else [c, c])))
+    return enc_value(v)
+
 
 CONST = """CONSTANTS
   Scopes <- %(scopes)s
@@ -17,9 +26,13 @@ CONST = """CONSTANTS
   RetGetters <- %(getters)s
   LateExpect = %(late)s
   Toggles = %(toggles)s
+  MaxInst = %(maxinst)d
+  DKeys <- %(dkeys)s
+  DVals <- %(dvals)s
 """
 MC_INV = ("INVARIANTS TypeOK DomainUnambiguous NeverOverConsumed CountsAgree ConsumedFits CandidatesSound VerdictExact "
-          "UnfulfilledIsCountMismatch OutOfOrderIsOrderMismatch EarlyFailureJustified FailsOnce\nCHECK_DEADLOCK FALSE\n")
+          "UnfulfilledIsCountMismatch OutOfOrderIsOrderMismatch EarlyFailureJustified FailsOnce\n"
+          "PROPERTIES InstallIsLocal BoundFunctionsStay\nCHECK_DEADLOCK FALSE\n")
 TRACE_CONST = """CONSTANTS
   Scopes = {"", "s", "t"}
   Fns = {}
@@ -35,12 +48,15 @@ TRACE_CONST = """CONSTANTS
   RetGetters = {}
   LateExpect = TRUE
   Toggles = TRUE
+  MaxInst = 0
+  DKeys = {}
+  DVals = {}
 """
 
 
 def consts(**kw):
     d = dict(scopes="ScopesG", fns='"f", "g"', pnames='"p"', vals="Vals2", onames="", odata="NoData", objs="", rets="Rets1",
-             maxexp=2, ns="0, 1, 2", maxcalls=3, getters="GetValue", late="FALSE", toggles="FALSE")
+             maxexp=2, ns="0, 1, 2", maxcalls=3, getters="GetValue", late="FALSE", toggles="FALSE", maxinst=0, dkeys="NoKeys", dvals="NoData")
     d.update(kw)
     return CONST % d
 
@@ -99,6 +115,14 @@ def beh_to_exec(h):
             ex.append(["ret", c["s"], g, "support"] + ([enc(c["d"])] if c.get("od") else []))
         elif op == "strict":
             ex.append(["strict", c["s"]])
+        elif op in ("installcmp", "installcpy"):
+            ex.append([op, c["s"], c["tn"], c["md"]])
+        elif op == "removeall":
+            ex.append(["removeall", c["s"]])
+        elif op == "setdata":
+            ex.append(["setdata", c["s"], c["k"], enc(c["v"])])
+        elif op == "getdata":
+            ex.append(["getdata", c["s"], c["k"]])
         else:
             ex.append([op])
     ex.append(["end"])
